@@ -9,6 +9,7 @@ pub mod schedprops;
 pub mod c10;
 pub mod concprogs;
 pub mod c14;
+pub mod c15;
 pub mod c16;
 pub mod c17;
 pub mod crashprops;
@@ -183,6 +184,10 @@ pub fn run_check(prop: &str, tier: &str) -> i32 {
             seq_check(prop, tier, s, &["C14"], budget * 0.3, &mut report);
             let bound = if thorough { 3 } else { 2 };
             schedprops::run_programs(concprogs::scan_programs(thorough), bound, 3000, budget * 0.4, &schedprops::judge_linearizable, None, &["C14"], &mut report);
+        }
+        "C15" => {
+            report.level = "exploration";
+            c15::check(tier, budget, &mut report);
         }
         "C16" => {
             // (1) cache FSM, (2) cache on/off differential over persistent SEQ suites
